@@ -49,6 +49,21 @@ func c13BaseScenarios() []*c13Base {
 		}
 		out = append(out, b)
 	}
+	// 1b. the same with the other codec families of the fMP4 variant (every payload decoder of the client is reached by
+	// the structure-aware mutations: sample sizes 0 / huge, durations, track ids ...)
+	for _, vc := range [][2]string{{"vp9", "opus"}, {"av1", ""}, {"h265", "opus"}} {
+		st, err := c10Build(c10Case{Container: "fmp4", Tracks: "va", Frags: 1, PDT: true, VOD: true, NSeg: 2, Video: vc[0], Audio: vc[1]})
+		if err != nil {
+			panic(err)
+		}
+		b := &c13Base{name: "fmp4-" + vc[0], entry: "r0.m3u8", res: map[string][]byte{}}
+		b.res["r0.m3u8"] = []byte(st.playlist(0))
+		b.res["r0_init"] = st.rends[0].init
+		for j, s := range st.rends[0].segs {
+			b.res[fmt.Sprintf("r0_seg%d", j)] = s.Body
+		}
+		out = append(out, b)
+	}
 	// 2. fMP4, multivariant, video + audio rendition
 	{
 		st, err := c10Build(c10Case{Container: "fmp4", Tracks: "v+a", Frags: 1, PDT: true, VOD: true, NSeg: 3})
